@@ -213,8 +213,26 @@ def decimalLiteral (inp : List Nat) : Option Nat × List Nat :=
   match decimalLoop inp 0 0 with
   | (r, k, rest) => if k > 0 then (some r, rest) else (none, rest)
 
+/-- `decimal_digits`: the leading decimal digits of the input without leading zeros, as
+`(length, digits)`. -/
+def decimalDigits (inp : List Nat) : Nat × List Nat :=
+  let digits := (inp.takeWhile isAsciiDigit).dropWhile (fun c => c == 0x30)
+  (digits.length, digits)
+
+/-- `a < b` on `Vec<u32>` (lexicographic; a proper prefix is smaller). -/
+def lexLt : List Nat → List Nat → Bool
+  | _, [] => false
+  | [], _ :: _ => true
+  | a :: as, b :: bs => a < b || (a == b && lexLt as bs)
+
+/-- `a > b` on `(usize, Vec<u32>)` (lexicographic on the pair). -/
+def digitsGt (a b : Nat × List Nat) : Bool :=
+  b.1 < a.1 || (a.1 == b.1 && lexLt b.2 a.2)
+
 /-- `try_consume_braced_quantifier`, on the raw input which must start with `{`
-(`self.consume('{')` unwraps). -/
+(`self.consume('{')` unwraps).  `rest` is `min_digits`, `r` is `max_digits`: when both bounds
+saturate to `usize::MAX` and the minimum's digit string denotes the larger number the maximum
+becomes `usize::MAX - 1` (so that the caller's `min > max` test fires). -/
 def bracedQuantifier (inp : List Nat) : Res (Option Quant × List Nat) :=
   match inp with
   | [] => panicAt "try_consume_braced_quantifier: consume('{')"
@@ -224,7 +242,12 @@ def bracedQuantifier (inp : List Nat) : Res (Option Quant × List Nat) :=
     | (some mn, rest1) =>
       let (mx, rest2) : Option Nat × List Nat :=
         match rest1 with
-        | 0x2C :: r => decimalLiteral r
+        | 0x2C :: r =>
+          match decimalLiteral r with
+          | (mx, r') =>
+            if mn == USIZE_MAX && mx == some USIZE_MAX && digitsGt (decimalDigits rest) (decimalDigits r)
+            then (some (USIZE_MAX - 1), r')
+            else (mx, r')
         | _ => (some mn, rest1)
       match rest2 with
       | 0x7D :: r => .ok (some { min := mn, max := mx, greedy := true }, r)
@@ -276,6 +299,15 @@ def fromStrRadix16 (s : List Nat) : Option Nat :=
   | 0x2B :: rest => hexAll rest 0
   | _ => hexAll s 0
 
+/-- `s.bytes().all(|b| b.is_ascii_hexdigit())` on a `String` (a non-ASCII char contributes only
+bytes `≥ 0x80`, none of which is a hex digit). -/
+def allHexDigits (s : List Nat) : Bool := s.all fun c => (hexDigit? c).isSome
+
+/-- `if s.bytes().all(|b| b.is_ascii_hexdigit()) { uN::from_str_radix(&s, 16).ok() } else { None }`
+(without the overflow check, as for `fromStrRadix16`). -/
+def hexDigitsRadix16 (s : List Nat) : Option Nat :=
+  if allHexDigits s then fromStrRadix16 s else none
+
 /-- The `loop` reading up to `}` in `try_escape_unicode_sequence`:
 `next().and_then(char::from_u32)` is `None` at the end of input and on a non-scalar value. -/
 def scanBrace : List Nat → List Nat → Option (List Nat × List Nat)
@@ -294,36 +326,36 @@ def take4 (inp : List Nat) : Option (List Nat × List Nat) :=
 
 /-- `try_escape_unicode_sequence` on the raw input (positioned after `\u`).
 Returns the code point and the remaining input (the original input when `None`).
-NOTE (as in the Rust code): after a high surrogate followed by `\u`, a failure to read a low
-surrogate restores the input to just AFTER that second `\u` (`orig_input` was reassigned). -/
+After a high surrogate followed by `\u`, a failure to read a low surrogate restores the input to
+just BEFORE that second `\u` (`orig_input` is reassigned before `try_consume_str("\\u")`). -/
 def tryEscapeUnicodeSequence (inp : List Nat) : Option Nat × List Nat :=
   match inp with
   | 0x7B :: rest =>
     match scanBrace rest [] with
     | none => (none, inp)
     | some (s, rest') =>
-      match fromStrRadix16 s with
+      match hexDigitsRadix16 s with
       | some u => if u > 0x10FFFF then (none, inp) else (some u, rest')
       | none => (none, inp)
   | _ =>
     match take4 inp with
     | none => (none, inp)
     | some (s, rest) =>
-      match fromStrRadix16 s with
+      match hexDigitsRadix16 s with
       | none => (none, inp)
       | some u =>
         if 0xD800 ≤ u && u ≤ 0xDBFF then
           match rest with
           | 0x5C :: 0x75 :: rest2 =>
             match take4 rest2 with
-            | none => (some u, rest2)
+            | none => (some u, rest)
             | some (s2, rest3) =>
-              match fromStrRadix16 s2 with
-              | none => (some u, rest2)
+              match hexDigitsRadix16 s2 with
+              | none => (some u, rest)
               | some uu =>
                 if 0xDC00 ≤ uu && uu ≤ 0xDFFF then
                   (some (0x10000 + (u - 0xD800) * 0x400 + (uu - 0xDC00)), rest3)
-                else (some u, rest2)
+                else (some u, rest)
           | _ => (some u, rest)
         else (some u, rest)
 
@@ -370,8 +402,10 @@ def tryConsumeName (inp : List Nat) : Res (Option (List Nat) × List Nat) :=
 
 /-! ## Character escapes -/
 
-/-- `consume_character_escape` on the raw input. -/
-def characterEscape (unicode : Bool) (inp : List Nat) : Res (Nat × List Nat) :=
+/-- `consume_character_escape` on the raw input.  `hasNamed` is
+`!self.named_group_indices.is_empty()` (the map is filled by the pre-scan before parsing starts
+and never changes afterwards). -/
+def characterEscape (unicode hasNamed : Bool) (inp : List Nat) : Res (Nat × List Nat) :=
   match inp with
   | [] => panicAt "consume_character_escape: next().expect(\"Should have a character\")"
   | c :: rest =>
@@ -413,6 +447,7 @@ def characterEscape (unicode : Bool) (inp : List Nat) : Res (Nat × List Nat) :=
     else if c == 0x5E || c == 0x24 || c == 0x5C || c == 0x2E || c == 0x2A || c == 0x2B || c == 0x3F
         || c == 0x28 || c == 0x29 || c == 0x5B || c == 0x5D || c == 0x7B || c == 0x7D || c == 0x7C
         || c == 0x2F then .ok (c, rest)
+    else if c == 0x6B && !unicode && hasNamed then synErr "Invalid character escape"
     else if !unicode then .ok (c, rest)
     else synErr "Invalid character escape"
 
